@@ -12,6 +12,7 @@ import (
 	"fmt"
 	"runtime"
 	"testing"
+	"time"
 
 	"github.com/usnistgov/dastard/packets"
 	"pgregory.net/rapid"
@@ -32,7 +33,28 @@ type c12dCase struct {
 	Invert     []int `json:"invert"`
 	Seed       int   `json:"seed"`
 	Kind       int   `json:"kind"` // signal shape
+	// ViaSource: 0 the group is built by NewAbacoGroup; 1 by a real AbacoSource (Configure with the options, then the sampling step
+	// of Start on a scripted packet producer); 2 the same, and while the sampling step runs another ConfigureAbacoSource request with
+	// other options arrives - it is refused (the source is not Inactive) and must change nothing
+	ViaSource int `json:"via_source,omitempty"`
 }
+
+// c12dProducer is a PacketProducer whose sampling step waits until the harness lets it go on.
+type c12dProducer struct {
+	sample  []*packets.Packet
+	entered chan struct{}
+	release chan struct{}
+}
+
+func (f *c12dProducer) ReadAllPackets() ([]*packets.Packet, error) { return nil, nil }
+func (f *c12dProducer) samplePackets(d time.Duration) ([]*packets.Packet, error) {
+	close(f.entered)
+	<-f.release
+	return f.sample, nil
+}
+func (f *c12dProducer) start() error        { return nil }
+func (f *c12dProducer) discardStale() error { return nil }
+func (f *c12dProducer) stop() error         { return nil }
 
 func c12dGen(t *rapid.T) c12dCase {
 	c := c12dCase{
@@ -74,6 +96,7 @@ func c12dGen(t *rapid.T) c12dCase {
 			c.Invert = append(c.Invert, rapid.IntRange(0, 150).Draw(t, "invany")) // possibly outside the group
 		}
 	}
+	c.ViaSource = rapid.SampledFrom([]int{0, 0, 1, 2, 2}).Draw(t, "viasource")
 	ncalls := rapid.IntRange(1, 4).Draw(t, "ncalls")
 	for i := 0; i < ncalls; i++ {
 		c.Calls = append(c.Calls, rapid.IntRange(1, 4).Draw(t, "call"))
@@ -109,6 +132,69 @@ func c12dRun(c c12dCase) (v vVerdict) {
 	opt := AbacoUnwrapOptions{RescaleRaw: c.Rescale, Unwrap: c.Unwrap, Bias: c.Bias, ResetAfter: c.ResetAfter, PulseSign: c.PulseSign,
 		InvertChan: append([]int(nil), c.Invert...)}
 	g := NewAbacoGroup(GroupIndex{Firstchan: c.First, Nchan: c.Nchan}, opt)
+	viaSource := false
+	if c.ViaSource > 0 && !(c.Unwrap && c.ResetAfter <= 0) {
+		as, err := NewAbacoSource()
+		if err != nil {
+			return vFailf("harness", "NewAbacoSource: %v", err)
+		}
+		accepted := AbacoSourceConfig{AbacoUnwrapOptions: opt}
+		accepted.InvertChan = append([]int(nil), c.Invert...)
+		if err := as.Configure(&accepted); err != nil {
+			return vFailf("configure-rejected", "Configure with options %+v on a new AbacoSource: %v", opt, err)
+		}
+		mk := func(seq uint32, counter uint64) *packets.Packet {
+			p := packets.NewPacket(10, 7, seq, c.First)
+			p.NewData(make([]int16, c.F*c.Nchan), []int16{int16(c.Nchan)})
+			p.SetTimestamp(packets.MakeTimestamp(uint16(counter>>32), uint32(counter), 1e9))
+			return p
+		}
+		fake := &c12dProducer{sample: []*packets.Packet{mk(1, 1000000), mk(2, 1000000+uint64(c.F)*1000)}, entered: make(chan struct{}), release: make(chan struct{})}
+		as.producers = []PacketProducer{fake}
+		if err := as.SetStateStarting(); err != nil {
+			return vFailf("harness", "SetStateStarting: %v", err)
+		}
+		sampled := make(chan error, 1)
+		go func() { sampled <- as.Sample() }()
+		select {
+		case <-fake.entered:
+		case <-time.After(10 * time.Second):
+			return vVerdict{Inconclusive: "the sampling step did not begin within 10 s"}
+		}
+		if c.ViaSource == 2 {
+			other := AbacoSourceConfig{AbacoUnwrapOptions: AbacoUnwrapOptions{RescaleRaw: !c.Rescale, Unwrap: !c.Rescale, Bias: !c.Bias, ResetAfter: c.ResetAfter + 7, PulseSign: -c.PulseSign}}
+			if c.PulseSign == 0 {
+				other.PulseSign = 1
+			}
+			if len(c.Invert) == 0 {
+				other.InvertChan = []int{c.First}
+			}
+			if err := as.Configure(&other); err == nil {
+				close(fake.release)
+				<-sampled
+				as.SetStateInactive()
+				return vFailf("configure-accepted-while-starting", "a Configure request was accepted while the source was being sampled by a Start")
+			}
+		}
+		close(fake.release)
+		var serr error
+		select {
+		case serr = <-sampled:
+		case <-time.After(10 * time.Second):
+			return vVerdict{Inconclusive: "the sampling step did not end within 10 s"}
+		}
+		as.SetStateInactive()
+		if serr != nil {
+			return vFailf("sample-rejected", "Sample() on one group of %d channels from %d: %v", c.Nchan, c.First, serr)
+		}
+		sg, ok := as.groups[GroupIndex{Firstchan: c.First, Nchan: c.Nchan}]
+		if !ok {
+			return vFailf("group-missing", "after Sample() the source has no group (%d, %d): %v", c.First, c.Nchan, as.groups)
+		}
+		sg.queue = nil
+		g = sg
+		viaSource = true
+	}
 	for a := 0; a < c.NPackets; a++ {
 		p := packets.NewPacket(10, 7, uint32(a), c.First)
 		d := make([]int16, c.F*c.Nchan)
@@ -185,6 +271,12 @@ func c12dRun(c c12dCase) (v vVerdict) {
 	}
 	if c.Unwrap {
 		v.Classes = append(v.Classes, "unwrap-on")
+	}
+	if viaSource {
+		v.Classes = append(v.Classes, "group-made-by-the-source")
+		if c.ViaSource == 2 {
+			v.Classes = append(v.Classes, "refused-configure-while-starting")
+		}
 	}
 	_ = fmt.Sprint
 	return v
